@@ -648,7 +648,14 @@ class Universe:
                 sharers = [xb for xo, xb in zip(a, b) if xo.spatialGrid is xa.spatialGrid]
                 below = {id(d) for d in self.walk_deep(x)}
                 contains_the_rest = all(xb is x or id(xb) in below for xb in sharers)
-                if g.armiObject is not x and not (len(sharers) > 1 and not contains_the_rest and any(g.armiObject is xb for xb in sharers)):
+                # (and when an object outside the copied subtree uses that grid too - a block of an assembly
+                # that has gone to the pool - the copy drags a copy of it along, which may end up as the owner:
+                # the grid must then only not point back into the original)
+                used_outside = any(o2.spatialGrid is xa.spatialGrid for o2 in self.objs.values() if id(o2) not in ids)
+                if used_outside:
+                    if id(g.armiObject) in ids:
+                        self.fail("C01.copy", f"step {k}: in the {op}, the grid of {x} belongs to an object of the original, {g.armiObject}", what="relink-grid-original", op=op)
+                elif g.armiObject is not x and not (len(sharers) > 1 and not contains_the_rest and any(g.armiObject is xb for xb in sharers)):
                     self.fail("C01.copy", f"step {k}: in the {op}, the grid of {x} belongs to {g.armiObject}", what="relink-grid", op=op)
                 for ca, c in zip(list(xa), list(x)):
                     lg = getattr(c.spatialLocator, "grid", None)
